@@ -54,6 +54,9 @@ struct Svc
   virtual uint64_t tickNs() = 0; // allowed earliness
   virtual const char *name() = 0;
   virtual bool hasPeriodic() { return false; }
+  // previous life: schedule `n` timers (delays 150..900 ms) whose handler bumps `fired`, end that life in
+  // a way that leaves them pending-but-cancelled, then stop -> reset -> start. Returns false if unsupported.
+  virtual bool restartAfterEarlierLife(int, std::atomic<int> &) { return false; }
 };
 
 struct WheelSvc : Svc
@@ -72,6 +75,15 @@ struct WheelSvc : Svc
   size_t pending() override { return w.pendingCount(); }
   uint64_t tickNs() override { return tick; }
   const char *name() override { return nm.c_str(); }
+  bool restartAfterEarlierLife(int n, std::atomic<int> &fired) override
+  {
+    for (int i = 0; i < n; i++) w.schedule(std::chrono::milliseconds(150 + 37 * i), [&fired]() { fired++; });
+    if (n & 1) w.drain(std::chrono::milliseconds(1000)); else w.stop();
+    if (w.getState() != TimingWheelState::STOPPED) w.stop();
+    w.reset();
+    w.start();
+    return true;
+  }
 };
 
 struct NullLogger : TimerLogger
@@ -92,6 +104,16 @@ struct TsSvc : Svc
   uint64_t tickNs() override { return 0; }
   const char *name() override { return "timerservice"; }
   bool hasPeriodic() override { return true; }
+  bool restartAfterEarlierLife(int n, std::atomic<int> &fired) override
+  {
+    // deadlines just beyond the drain window, so that they fall INSIDE the span of the second life's timers
+    for (int i = 0; i < n; i++) s->scheduleAfter(std::chrono::milliseconds(45 + 5 * i), [&fired]() { fired++; });
+    if (n & 1) s->schedulePeriodic(std::chrono::milliseconds(60), [&fired]() { fired++; });
+    s->drain(40);   // cancels everything due later than 40 ms from now; the entries stay behind until collected
+    s->stop();
+    if (!s->reset().success) return false;
+    return s->start().success;
+  }
 };
 
 struct PoolSvc : Svc
@@ -223,6 +245,11 @@ static bool runScenario(uint64_t seed, uint64_t idx, int which)
   else if (which == 1) S->svc = new TsSvc();
   else S->svc = new PoolSvc(size_t(rng.range(1, 4)));
   Svc *svc = S->svc;
+  // a third of the scenarios run in the SECOND life of the service (stop -> reset -> start after a life that
+  // ended with cancelled timers still pending): nothing of the first life may leak into the second
+  std::atomic<int> earlierLifeFired{0};
+  bool restarted = rng.chance(0.34) && svc->restartAfterEarlierLife(int(rng.range(3, 24)), earlierLifeFired);
+  int earlierAtRestart = earlierLifeFired.load();
   int nThreads = int(rng.range(2, 6));
   int perThread = int(rng.range(20, 120));
   int shutdownKind = int(rng.below(4)); // 0 stop at quiescence 1 drain at quiescence 2 stop racing schedulers 3 drain racing schedulers
@@ -446,6 +473,12 @@ static bool runScenario(uint64_t seed, uint64_t idx, int which)
     // (7) accepted after the service stopped
     if (r->callNs.load() > S->shutdownRetNs.load())
       O.viol("C08:" + N + ":accepted-after-shutdown", "schedule returned a valid id after stop()/drain() had returned", det(r, "\"x\":0"));
+  }
+  if (restarted)
+  {
+    O.obs("scenarios_in_second_life_" + N);
+    if (earlierLifeFired.load() != earlierAtRestart)
+      O.viol("C08:" + N + ":timer-of-earlier-life-fired-after-restart", "a timer scheduled before stop()/reset() fired in the restarted service", det(nullptr, "\"count\":" + std::to_string(earlierLifeFired.load() - earlierAtRestart)));
   }
   if (inHandlersAtReturn) O.viol("C08:" + N + ":handler-after-shutdown", "a handler was executing when stop()/drain() returned", det(nullptr, "\"in_handlers\":" + std::to_string(inHandlersAtReturn)));
   if (pendingAfter) O.viol("C08:" + N + ":accepted-during-shutdown-never-fired", "after stop()/drain() returned and schedulers quiesced, timers are still pending in a service that no longer fires them",
